@@ -99,6 +99,9 @@ def long_shapes():
     e = F(1, 100000)
     c["competing_scales"] = (cfgspec.G("N0", V, [(F(1), "N0", ("N1", "c")), (F(1), "N0", ("N3", "c")), (F(1), "N3", ("N1",)), (F(1), "N3", ("N2",)),
                                                  (e, "N1", ("a", "N1")), (e, "N1", ("a",)), (F(1, 2), "N2", ("a", "N2")), (F(1, 2), "N2", ("a",))]), "a")
+    # a token of conditional probability 1e-14 in every position: the rescaling coefficient of a column is the reciprocal of that
+    # probability (1e14) and must not be clipped (seeded change C04-10)
+    c["tiny_token"] = (cfgspec.G("N0", V, [(F(1, 10**14), "N0", ("a", "N0")), (F(3, 10), "N0", ("b", "N0")), (F(7, 10), "N0", ("c",))]), "a")
     return c
 
 
@@ -157,6 +160,8 @@ def make_cases(tier, seed, n_random=None, maxlen=None, long_n=None):
         cases.append(dict(kind="deep", name="deep:right_linear", g=gL, token=tok, n=600, heap="real"))
         gL, tok = shapes["competing_scales"]
         cases.append(dict(kind="long", name="long:competing_scales", g=gL, token=tok, n=90, positions=[60, 75, 90], heap="real"))
+        gL, tok = shapes["tiny_token"]
+        cases.append(dict(kind="long", name="long:tiny_token", g=gL, token=tok, n=100, positions=[40, 90, 100], heap="real"))
     else:
         gL, tok = shapes["right_linear"]
         for n_ in (600, 1500):
